@@ -34,7 +34,7 @@ def deck_name(deck) -> str:
     for k, v in DECKS.items():
         if deck is v:
             return k
-    raise KeyError(deck)
+    return 'CUSTOM'
 
 
 def max_players(variant: str) -> int:
@@ -55,6 +55,7 @@ def create(spec: dict):
     stacks, mode ('T'/'C'), boards0, rake, streets (custom), deck, types, structure, seed"""
     rng = random.Random(spec['seed'])
     Shuffles.rng = rng
+    Shuffles.fixed = spec.get('deck_order')
     Shuffles.A = spec.get('shufA', 1)
     Shuffles.B = spec.get('shufB', 0)
     autos = tuple(a for a in ALL_AUTOS if a.value in spec['autos'])
@@ -65,7 +66,8 @@ def create(spec: dict):
         streets = tuple(Street(s['burn'], tuple(s['hole']), s['board'], s['draw'], Opening(s['opening']), s['minbet'],
                                None if s['maxcnt'] < 0 else s['maxcnt']) for s in spec['streets'])
         types = tuple(pk.TYPE_CLASSES[t] for t in spec['types'])
-        return State(autos, DECKS[spec['deck']], types, streets, BettingStructure(spec['structure']), spec['trim'],
+        deck = tuple(pk.int_card(c) for c in spec['deck_list']) if 'deck_list' in spec else DECKS[spec['deck']]
+        return State(autos, deck, types, streets, BettingStructure(spec['structure']), spec['trim'],
                      spec['antes'], spec['blinds'], spec['bringin'], spec['stacks'], spec['n'], **kw)
     if spec.get('via_phh'):
         # the game behind a hand-history variant code (C11: the codes map to the same games)
